@@ -44,11 +44,14 @@ Definition strip (s : str) : str := rev (lstrip (rev (lstrip s))).
 Fixpoint index_of (f : str -> bool) (l : list str) (i : nat) : option nat :=
   match l with [] => None | x :: r => if f x then Some i else index_of f r (S i) end.
 
-(* check_optional(arg, params): `kw = ...` -> index of the first parameter whose label (before any =) equals kw *)
+(* check_optional(arg, params): `kw = ...` -> index of the first parameter whose label (before any =) equals kw;
+   `arg.split("=")` with an empty second piece followed by more is `a == b` *)
 Definition check_optional (arg : str) (params : list str) : option nat :=
   match split 61%N arg with
-  | kw :: _ :: _ => let k := lower_str (strip kw) in
-                    index_of (fun lab => str_eqb (lower_str (match split 61%N lab with x :: _ => x | [] => [] end)) k) params 0
+  | kw :: p1 :: rest =>
+    if (match p1, rest with [], _ :: _ => true | _, _ => false end) then None          (* `a == b`: a comparison, not `a=` *)
+    else let k := lower_str (strip kw) in
+         index_of (fun lab => str_eqb (lower_str (match split 61%N lab with x :: _ => x | [] => [] end)) k) params 0
   | _ => None
   end.
 
